@@ -10,6 +10,7 @@ import Genq.Model.CodecSkel
 import Genq.Extracted.Codec
 import Genq.Proofs.CodecRT
 import Genq.Proofs.CodecImg
+import Genq.Proofs.FlattenAgree
 namespace Genq.Types
 
 section Lemmas
@@ -219,3 +220,31 @@ theorem C06_codec_template_tie :
     Extracted.marshalHelperTmpl = CodecSkel.marshalHelperTmpl ∧
     Extracted.flattenedFieldsSkeleton = CodecSkel.flattenedFieldsSkeleton := ⟨rfl, rfl, rfl, rfl, rfl⟩
 end Genq
+
+/-! ### the two models of FlattenedFields agree (Proofs/FlattenAgree.lean) -/
+namespace Genq.FlattenAgree
+open Genq.Types (SField flattenedFields)
+open Genq.Codec (Flds Val winners encAll WFFields)
+
+/-- **C06_flatten_models_agree** — for EVERY forest of struct fields (any depth of embedding, any repetition of JSON
+    names) the literal queue loop of generate/types.go FlattenedFields (pop the front, an embedded struct's fields go to
+    the back, the first field seen for a JSON name wins) selects the same JSON names, in the same order, as "all
+    fields ordered by embedding depth, declaration order within a depth, first name wins": breadth-first queue order
+    is the stable sort by depth -/
+theorem C06_flatten_models_agree (fields : List SField) :
+    (flattenedFields fields).map (·.2) = (winners (entriesL 0 fields)).map (·.1) :=
+  flattenedFields_eq_winners fields
+
+/-- **C06_marshaled_keys_are_flattenedFields** — so the keys the model's MarshalJSON writes for any struct type and any
+    well-formed value of it are exactly, and in the order of, what the queue loop selects for that type -/
+theorem C06_marshaled_keys_are_flattenedFields (fs : Flds) (vs : List Val) (h : WFFields fs vs) :
+    (winners (encAll fs vs 0)).map (·.1) = (flattenedFields (toS fs)).map (·.2) :=
+  enc_keys_eq_flattenedFields fs vs h
+
+-- non-vacuity: a key carried at depth 0 after an embedded struct that carries it at depth 1 — the shallower one wins
+-- in both models, although the embedded struct is declared first
+example : (flattenedFields [.embed "Frag" [.plain "Id" "id", .plain "Name" "name"], .plain "Id" "id"]).map (·.2) = ["id", "name"] ∧
+    (winners (entriesL 0 [.embed "Frag" [.plain "Id" "id", .plain "Name" "name"], .plain "Id" "id"])).map (·.1) = ["id", "name"] := by
+  decide
+
+end Genq.FlattenAgree
